@@ -1,6 +1,8 @@
 #!/usr/bin/env python3-vt
 """Development helper: verify selected units and print their obligations."""
-import sys, os, time
+import sys, os, time, faulthandler
+if os.environ.get("TRACE_AFTER"):
+    faulthandler.dump_traceback_later(int(os.environ["TRACE_AFTER"]), exit=True)
 sys.path.insert(0, os.path.dirname(os.path.abspath(__file__)))
 from pyvc.verify import Context, verify_unit
 from specs import decoders
@@ -14,7 +16,12 @@ for u in decoders.CONTRACTS:
     t0 = time.time()
     r = verify_unit(ctx, u)
     bad = [o for o in r["obligations"] if o.verdict != "proved"]
-    print("%-40s tag=%-4s paths=%d obligations=%d notproved=%d outcomes=%s %.1fs %s" % (u["name"], u["tag"], r["paths"], len(r["obligations"]), len(bad), r["outcomes"], time.time() - t0, r["error"] or ""))
+    print("%-40s tag=%-4s paths=%d obligations=%d notproved=%d outcomes=%s %.1fs %s" % (u["name"], u["tag"], r["paths"], len(r["obligations"]), len(bad), r["outcomes"], time.time() - t0, r["error"] or ""), flush=True)
+    if os.environ.get("SLOW"):
+        for o in sorted(r["obligations"], key=lambda o: -o.seconds)[:8]:
+            print("    slow %.1fs %s %s | %s" % (o.seconds, o.backend, o.oid, o.pathsig[-60:]))
+        from pyvc import solver as _s
+        print("   ", _s.stats)
     for o in bad[:12]:
         print("   ", o.verdict, o.oid, "|", o.pathsig, "|", o.detail[:100])
         if o.model is not None and os.environ.get("SHOWMODEL"):
